@@ -46,6 +46,7 @@ type FuncVC struct {
 	obligs    []*Oblig
 	glue      map[string][]glueCand // loop key -> surviving candidates
 	glueInit  map[string]bool
+	candDropped map[string]bool // loop key|ordinal of optional invariants that did not survive
 	unsupported []string
 	paths     int
 	returns   int
